@@ -133,28 +133,28 @@ add('C01',
 ADDENDA = {
     'C01': ('linear-use / template-multiplicity analysis of user expressions (DUP-EVAL), source tracing of store-position placeholders (NEW-BINDING), user expressions moved into generated function scopes (SCOPE-MOVE), state-frame requirement on block visitors, order constraints for code parked in annotations (O6) and for stale analysis annotations (O7), abstract evaluation of the BoolOp / Compare folds on symbolic operands (FOLD), stale-child taint (STALE), presence-based annotation copy (ORIG-DEFS), traversal of the variable pass (LD-TRAV), standard-library name resolution (STDLIB), state-frame pairing (FRAME); imported necessary conditions of C03 C05 C06 C07 C08 C09 C11 C13 C14',
             ' A user expression reaches the generated code at most once on every handler path and a repeated placeholder only receives plain names; templates assign only to fresh symbols or to what the user statement binds; every block is visited inside a fresh frame of the pass state.'),
-    'C02': ('user expressions moved into generated function scopes (SCOPE-MOVE); imported rules: activity traversal/order (C08), getter/setter and support-set rules (C03), closure liveness and value-type state (C07)', ''),
-    'C03': ('alias analysis of module-level mutable objects (SHARED-MUT, with positive-control fixture); abstract evaluation of QN.support_set as a structural fold (QN-SUPPORT)',
+    'C02': ('user expressions moved into generated function scopes (SCOPE-MOVE); imported rules: activity traversal/order (C08), getter/setter, support-set, output-count and tuple-order rules (C03), closure liveness and value-type state (C07)', ''),
+    'C03': ('abstract evaluation of the BoolOp / Compare folds: every operand of and_ / or_ is a lambda (FOLD); alias analysis of module-level mutable objects (SHARED-MUT, with positive-control fixture); abstract evaluation of QN.support_set as a structural fold (QN-SUPPORT)',
             ' Directive tables and option nodes are per loop (no module-level mutable object is mutated through an alias); the support of a composite is the union of the supports of its parts.'),
     'C04': ('order constraint O6 for code parked in annotations; FOLD and STALE (see C01); exact predicates for the documented native-call exceptions; imported cache-key / option equality rules (C10, C20)', ''),
-    'C05': ('reachability order of statement-list visits relative to the lexical-scope window (CFG-SCOPE); per-section builder state keyed by the section (CFG-KEYED); path analysis of jump recording and wiring in the builder (CFG-WIRE)',
+    'C05': ('an entry of the statement-edge tables for every statement that owns a node (CFG-MIRROR); reachability order of statement-list visits relative to the lexical-scope window (CFG-SCOPE); per-section builder state keyed by the section (CFG-KEYED); path analysis of jump recording and wiring in the builder (CFG-WIRE)',
             ' Loop bodies and try body/else are visited while their statement is on the lexical scope stack, loop else and finally bodies after it has left; nestable sections keep their state in tables keyed by the section.'),
-    'C06': ('value-type check of the lattice state class; imported CFG rules (C05) and activity traversal / parameter rules (C08)', ''),
-    'C07': ('value-type check of the reaching-function-definitions state; imported CFG rules (C05) and activity traversal / order / finalisation rules (C08)', ''),
-    'C08': ('must-traverse analysis of every ActivityAnalyzer / QnResolver handler over every field that can hold a Name (ACT-TRAV, constant-flag and literal-iteration aware); dominance-based visit order (ACT-ORDER); per-name recording of global/nonlocal lists; state-frame pairing (ACT-FRAME)',
+    'C06': ('totality of the state equality behind the change flag (RD-FLAG); value-type check of the lattice state class; imported CFG rules (C05) and activity traversal / parameter rules (C08)', ''),
+    'C07': ('path-wise values of the block live-in annotation, annotators found by role (LV-BLOCK); value-type check of the reaching-function-definitions state; imported CFG rules (C05) and activity traversal / order / finalisation rules (C08)', ''),
+    'C08': ('no removal from the symbol sets of a scope (SCOPE-GROWS); must-traverse analysis of every ActivityAnalyzer / QnResolver handler over every field that can hold a Name (ACT-TRAV, constant-flag and literal-iteration aware); dominance-based visit order (ACT-ORDER); per-name recording of global/nonlocal lists; state-frame pairing (ACT-FRAME)',
             ' Every handler of the activity analysis and of the qualified-name resolver visits every symbol-bearing field on every path; comprehension iterables are visited before their targets are registered.'),
     'C09': ('imported activity traversal rule restricted to parameter fields (C08)', ''),
-    'C10': ('guard analysis of every caching call of the unconverted path: remembered decisions depend on (function, options) only; imported option equality rules (C20)', ''),
-    'C11': ('structural fold check of QN.support_set (HYG-SUPPORT)', ''),
+    'C10': ('imported binding rules of instantiate (C09: IFACE-BIND, IFACE-INST); guard analysis of every caching call of the unconverted path: remembered decisions depend on (function, options) only; imported option equality rules (C20)', ''),
+    'C11': ('case-wise evaluation of QN.support_set (HYG-SUPPORT); no removal from scope sets (HYG-SCOPE-GROWS); the root-skipping lambda search is handed the function node', ''),
     'C13': ('first-match-over-the-full-MRO rule for the defining class; imported negative-cache (C10) and status-stack rules (C16)', ''),
-    'C14': ('expansion of the arguments completing zero-argument super() to the frame\'s __class__ cell and first argument; imported policy-chain rules (C13)', ''),
-    'C15': ('module-state rule over every function on the recovery path (SRC-NOSTATE); compiled-pattern substitutions count as context-free edits', ''),
-    'C16': ('imported cache-key rule (C10): user-requested and recursive conversions are cached apart', ''),
-    'C17': ('provenance of Literal values (TREE-LITERAL); no-__wrapped__ rule on the chain that creates the loaded function; return-case analysis of every statement handler of the tree transformers and attribute-store tracking of shortened user blocks (TREE-NONEMPTY)',
+    'C14': ('namespace of eval / locals collected from every frame of the function (all-locals); raw-source scan of the run-time library for scope-named locals; expansion of the arguments completing zero-argument super() to the frame\'s __class__ cell and first argument; imported policy-chain rules (C13)', ''),
+    'C15': ('same reaching definition for the tokenised text and the text whose lines are paired (paired-lines-of-one-text); module-state rule over every function on the recovery path (SRC-NOSTATE); compiled-pattern substitutions count as context-free edits', ''),
+    'C16': ('the wrapper is returned on every path of the status decorators; imported cache-key rule (C10): user-requested and recursive conversions are cached apart', ''),
+    'C17': ('kinds that force their children to Load; encoding of the module file; provenance of Literal values (TREE-LITERAL); no-__wrapped__ rule on the chain that creates the loaded function; return-case analysis of every statement handler of the tree transformers and attribute-store tracking of shortened user blocks (TREE-NONEMPTY)',
             ' No generated compound statement has an empty statement list: statement handlers never delete a statement, and a shortened user block embedded as a whole body gets a pass.'),
-    'C18': ('path condition of the replacement step excludes Store / Del contexts (ANF-TARGET); imported clean-copy rules of the template machinery (C17)', ''),
-    'C19': ('value-type check of the type map; imported CFG rules (C05) and parameter / traversal rules (C08)', ''),
-    'C20': ('reaching-definition check that the rendered feature collection is the unmodified parameter', ''),
+    'C18': ('path condition of the replacement step excludes Store / Del contexts (ANF-TARGET); the edge-pattern match as a formula over its six tests; wrapper kinds hand (parent, field) on; the pending list is not drained before the while rejection test; imported clean-copy rules of the template machinery (C17)', ''),
+    'C19': ('totality of the state equality behind the change flag; dropped keys are qualified names; value-type check of the type map; imported CFG rules (C05) and parameter / traversal rules (C08)', ''),
+    'C20': ('reaching-definition check that the rendered feature collection is the unmodified parameter; balanced state stack of the functions pass (OPT-FRAME)', ''),
 }
 THOROUGH = (' Thorough tier: the same rules, re-evaluated on three behaviour-preserving twins of the current tree (re-printed; locals renamed; methods reordered) whose verdict must agree, '
             'on scratch copies carrying each confirmed seeded change of the property that still applies, each of which must be reported, '
